@@ -343,6 +343,58 @@ impl Real {
         bad
     }
 
+    /// C14: the order keys of the nodes attached to the document are non-zero, pairwise distinct and strictly increasing along
+    /// a pre-order walk in which an element precedes its attributes and its attributes precede its children
+    fn order_keys(&self) -> Vec<String> {
+        fn walk(n: &xml_dom::XmlNode, last: &mut usize, seen: &mut std::collections::BTreeSet<usize>, bad: &mut Vec<String>) {
+            let k = n.order();
+            if k == 0 {
+                bad.push(format!("{} has the key 0", n.node_name()));
+            } else {
+                if !seen.insert(k) {
+                    bad.push(format!("{} shares the key {}", n.node_name(), k));
+                }
+                if k <= *last {
+                    bad.push(format!("{}={} comes after the key {}", n.node_name(), k, *last));
+                }
+                *last = k;
+            }
+            if let Some(attrs) = n.attributes() {
+                // attributes among themselves are unordered: each lies after the element (and whatever came before) and
+                // before the first child; the walk continues from the greatest of them
+                let base = *last;
+                let mut top = base;
+                for a in attrs.iter() {
+                    let ak = xml_dom::AsNode::as_node(&a).order();
+                    if !xml_dom::Attr::specified(&a) {
+                        continue; // a defaulted attribute is not numbered (recorded finding of C05 / C11)
+                    }
+                    if ak == 0 {
+                        bad.push(format!("@{} has the key 0", a.node_name()));
+                    } else {
+                        if !seen.insert(ak) {
+                            bad.push(format!("@{} shares the key {}", a.node_name(), ak));
+                        }
+                        if ak <= base {
+                            bad.push(format!("@{}={} is not after its element / the preceding node ({})", a.node_name(), ak, base));
+                        }
+                        top = top.max(ak);
+                    }
+                }
+                *last = top;
+            }
+            for c in n.child_nodes().iter() {
+                walk(&c, last, seen, bad);
+            }
+        }
+        let mut bad = vec![];
+        let mut last = 0;
+        let mut seen = std::collections::BTreeSet::new();
+        // the document node itself carries the first key
+        walk(&self.nodes["D"], &mut last, &mut seen, &mut bad);
+        bad
+    }
+
     fn call(&self, op: &[&'static str]) -> Option<Result<xml_dom::XmlNode, String>> {
         fn with<R>(p: &xml_dom::XmlNode, f: impl FnOnce(&dyn NodeMut) -> R) -> Option<R> {
             match p {
@@ -406,7 +458,7 @@ pub fn dom_seq(ops: &str, what: &str) -> Outcome {
                 Ok(None) => return ("ok".to_string(), "ok".to_string()),
                 Err(e) => {
                     let msg = e.downcast_ref::<&str>().map(|s| s.to_string()).or_else(|| e.downcast_ref::<String>().cloned()).unwrap_or_default();
-                    if what == "tree" {
+                    if what != "atomic" {
                         // a panic is C13's matter; nothing can be said about the tree afterwards
                         return ("ok".to_string(), "ok".to_string());
                     }
@@ -439,13 +491,13 @@ pub fn dom_seq(ops: &str, what: &str) -> Outcome {
             for a in &acceptable {
                 match (a, &res) {
                     (Ok(m), Ok(_)) if m.show() == after => matched = Some(m.clone()),
-                    (Err(cs), Err(c)) if after == model.show() && (what == "tree" || (cs.contains(&c.as_str()) && format!("{}", real.doc) == before_doc)) => matched = Some(model.clone()),
+                    (Err(cs), Err(c)) if after == model.show() && (what != "atomic" || (cs.contains(&c.as_str()) && format!("{}", real.doc) == before_doc)) => matched = Some(model.clone()),
                     _ => {}
                 }
             }
             // C12 looks at the tree only: a refused call with the "wrong" class or an accepted call are C13's matter as long as
             // the tree is an acceptable one
-            if matched.is_none() && what == "tree" {
+            if matched.is_none() && what != "atomic" {
                 for a in &acceptable {
                     if let Ok(m) = a {
                         if m.show() == after {
@@ -460,6 +512,14 @@ pub fn dom_seq(ops: &str, what: &str) -> Outcome {
             match matched {
                 Some(m) => model = m,
                 None => {
+                    if what == "order" {
+                        // whatever the call did (C13's matter), the keys of what is attached now must be in order
+                        let bad = real.order_keys();
+                        if bad.is_empty() {
+                            return ("ok".to_string(), "ok".to_string());
+                        }
+                        return (format!("step {} {}: {} keys: {:?}", i, op.join(":"), got, bad), format!("step {} {}: non-zero, distinct, strictly increasing along the pre-order walk", i, op.join(":")));
+                    }
                     if what == "tree" {
                         // the tree is none of the acceptable ones: still a tree?  C12 demands the views to agree, whatever happened
                         let bad = real.views();
@@ -470,6 +530,12 @@ pub fn dom_seq(ops: &str, what: &str) -> Outcome {
                         return (format!("step {} {}: {} views: {:?}", i, op.join(":"), got, bad), format!("step {} {}: {}", i, op.join(":"), describe(&acceptable)));
                     }
                     return (format!("step {} {}: {}", i, op.join(":"), got), format!("step {} {}: {}", i, op.join(":"), describe(&acceptable)));
+                }
+            }
+            if what == "order" {
+                let bad = real.order_keys();
+                if !bad.is_empty() {
+                    return (format!("step {} {}: {} keys: {:?}", i, op.join(":"), got, bad), format!("step {} {}: non-zero, distinct, strictly increasing along the pre-order walk", i, op.join(":")));
                 }
             }
             if what == "tree" {
@@ -890,6 +956,17 @@ thread_local! {
     static CORPUS_DOCS: std::cell::RefCell<Vec<Option<std::rc::Rc<CorpusDoc>>>> = const { std::cell::RefCell::new(Vec::new()) };
 }
 
+/// C07 only: the node-set the expression returns is duplicate-free and in document order (WHICH nodes it holds is C05's matter)
+pub fn xpath_corpus_order(doc_index: usize, expr: &str, expected: &str) -> Outcome {
+    let o = xpath_corpus(doc_index, expr, expected);
+    let observed = if o.observed.contains("(a node is listed twice") || o.observed.contains("(not in document order") || o.observed.starts_with("PANIC") {
+        o.observed
+    } else {
+        "duplicate-free and in document order (or not a node-set)".to_string()
+    };
+    Outcome { observed, expected: "duplicate-free and in document order (or not a node-set)".to_string(), note: o.note }
+}
+
 pub fn xpath_corpus(doc_index: usize, expr: &str, expected: &str) -> Outcome {
     use xml_dom::{AsExpandedName, AsNode};
     use xml_xpath::eval::model::{Context, Value};
@@ -920,6 +997,9 @@ pub fn xpath_corpus(doc_index: usize, expr: &str, expected: &str) -> Outcome {
             }
             Ok(Value::Node(ns)) => {
                 let mut keys: Vec<String> = vec![];
+                // attributes defaulted from the DTD carry no document-order key (recorded finding of C05 / C11): their place in
+                // the returned list is not looked at
+                let mut unnumbered: Vec<String> = vec![];
                 for n in ns.iter() {
                     match n {
                         xml_dom::XmlNode::Attribute(a) => {
@@ -928,6 +1008,9 @@ pub fn xpath_corpus(doc_index: usize, expr: &str, expected: &str) -> Outcome {
                                 Ok(Some((local, _, uri))) => (local, uri.unwrap_or_default()),
                                 _ => ("?".to_string(), "?".to_string()),
                             };
+                            if !xml_dom::Attr::specified(a) {
+                                unnumbered.push(format!("{}@{{{}}}{}", owner, uri, local));
+                            }
                             keys.push(format!("{}@{{{}}}{}", owner, uri, local));
                         }
                         xml_dom::XmlNode::Namespace(_) => keys.push("namespace-node".to_string()),
@@ -935,10 +1018,17 @@ pub fn xpath_corpus(doc_index: usize, expr: &str, expected: &str) -> Outcome {
                     }
                 }
                 let listed = keys.len();
+                // C07: a node-set comes in document order (the attributes of one element among themselves: any order)
+                let position = |k: &String| k.split('@').next().unwrap_or("").to_string() + if k.contains('@') { "@" } else { "" };
+                let numbered: Vec<&String> = keys.iter().filter(|k| !unnumbered.contains(k)).collect();
+                let in_order = numbered.windows(2).all(|w| position(w[0]) <= position(w[1]));
+                let as_returned = keys.join(",");
                 keys.sort();
                 keys.dedup();
                 if keys.len() != listed {
                     format!("NS:{} (a node is listed twice: {} entries)", keys.join(","), listed)
+                } else if !in_order {
+                    format!("NS:{} (not in document order: returned as {})", keys.join(","), as_returned)
                 } else {
                     format!("NS:{}", keys.join(","))
                 }
